@@ -916,3 +916,108 @@ pub fn c09_quotient(inp: &PV) -> PV {
     let hr = lax_read(&LOH { sources: vec![], targets: vec![], hypergraph: h });
     PV::List(vec![t1, PV::Lax(after1), tag(&r2), PV::Lax(after2), tag(&r3), PV::Lax(hr)])
 }
+
+// ------------------------------------------------------------------ lax category structure (C02 / C04 / C10)
+fn pv_opt_lax(o: Option<LOH>) -> PV {
+    match o {
+        None => PV::None,
+        Some(f) => PV::Some(Box::new(pv_lax(&f))),
+    }
+}
+/// strict diagram over VecKind built through the checked constructors from quotient-free raw data (independent of lax code)
+pub fn voh_build(r: &RawLax) -> VOH {
+    use open_hypergraphs::array::vec::VecArray;
+    assert!(r.quot.is_empty());
+    let n = r.nodes.len();
+    let ix = |ts: &[T]| VecArray(ts.iter().map(|t| RawLax::id(*t)).collect::<Vec<usize>>());
+    let ic = |sel: &dyn Fn(&(Vec<T>, Vec<T>)) -> Vec<T>| {
+        let lists: Vec<Vec<T>> = r.adj.iter().map(|e| sel(e)).collect();
+        let sizes = VecArray(lists.iter().map(|l| l.len()).collect::<Vec<usize>>());
+        let vals: Vec<T> = lists.into_iter().flatten().collect();
+        IndexedCoproduct::from_semifinite(SemifiniteFunction(sizes), FiniteFunction::<VK>::new(ix(&vals), n).expect("gen: in range")).expect("gen")
+    };
+    let h = Hypergraph::<VK, L, L>::new(
+        ic(&|e| e.0.clone()),
+        ic(&|e| e.1.clone()),
+        SemifiniteFunction(VecArray(r.nodes.iter().map(|t| K::mk_l(*t)).collect())),
+        SemifiniteFunction(VecArray(r.edges.iter().map(|t| K::mk_l(*t)).collect())),
+    )
+    .expect("gen");
+    OpenHypergraph::new(FiniteFunction::new(ix(&r.s), n).expect("gen"), FiniteFunction::new(ix(&r.t), n).expect("gen"), h).expect("gen")
+}
+pub fn lax_tensor(inp: &PV) -> PV {
+    let (f, g) = (lax_build(inp.at(0).lax()), lax_build(inp.at(1).lax()));
+    let a = f.tensor(&g);
+    let b = <LOH as Monoidal>::tensor(&f, &g);
+    let c = &f | &g;
+    // in-place forms
+    let mut d = f.clone();
+    d.tensor_assign(g.clone());
+    let mut e = f.clone();
+    let (es, et) = e.append(g.clone());
+    let mut hh = f.hypergraph.clone();
+    hh.coproduct_assign(g.hypergraph.clone());
+    let ids = |v: &Vec<lax::NodeId>| PV::of_ts(&v.iter().map(tid).collect::<Vec<T>>());
+    PV::List(vec![pv_lax(&a), pv_lax(&b), pv_lax(&c), pv_lax(&d), pv_lax(&e), ids(&es), ids(&et), pv_lax(&LOH { sources: vec![], targets: vec![], hypergraph: hh })])
+}
+pub fn lax_tensor3(inp: &PV) -> PV {
+    let (f, g, h) = (lax_build(inp.at(0).lax()), lax_build(inp.at(1).lax()), lax_build(inp.at(2).lax()));
+    let u = LOH::empty();
+    PV::List(vec![pv_lax(&f.tensor(&g).tensor(&h)), pv_lax(&f.tensor(&g.tensor(&h))), pv_lax(&f.tensor(&u)), pv_lax(&u.tensor(&f)), PV::of_ts(&<LOH as Monoidal>::unit().iter().map(|l| K::rd_l(l)).collect::<Vec<T>>())])
+}
+pub fn lax_compose(inp: &PV) -> PV {
+    let (f, g) = (lax_build(inp.at(0).lax()), lax_build(inp.at(1).lax()));
+    let checked = <LOH as Arrow>::compose(&f, &g);
+    let sugar = &f >> &g;
+    let unchecked = f.lax_compose(&g);
+    PV::List(vec![pv_opt_lax(checked), pv_opt_lax(sugar), pv_opt_lax(unchecked)])
+}
+/// to_strict of a lax diagram (panics on a label conflict)
+pub fn lax_to_strict(inp: &PV) -> PV {
+    let f = lax_build(inp.at(0).lax());
+    pv_voh(&f.to_strict())
+}
+pub fn lax_roundtrip(inp: &PV) -> PV {
+    let r = inp.at(0).lax();
+    let f = lax_build(r);
+    // lax -> strict -> lax on a quotient-free diagram
+    let back = LOH::from_strict(f.clone().to_strict());
+    // strict -> lax -> strict on a strict diagram built independently through the checked constructors
+    let g = voh_build(r);
+    let via = LOH::from_strict(g.clone());
+    let again = via.clone().to_strict();
+    PV::List(vec![pv_lax(&back), pv_lax(&via), pv_voh(&again), pv_voh(&g), pv_bool(f.hypergraph.is_strict())])
+}
+/// strictification commutes with the categorical operations: both sides computed by the real code
+pub fn lax_commute(inp: &PV) -> PV {
+    let (f, g) = (lax_build(inp.at(0).lax()), lax_build(inp.at(1).lax()));
+    let (sf, sg) = (f.clone().to_strict(), g.clone().to_strict());
+    let comp = <LOH as Arrow>::compose(&f, &g).map(|c| c.to_strict());
+    let scomp = sf.compose(&sg);
+    let ten = f.tensor(&g).to_strict();
+    let sten = sf.tensor(&sg);
+    let dag = f.dagger().to_strict();
+    let sdag = sf.dagger();
+    let o = |x: Option<VOH>| match x {
+        None => PV::None,
+        Some(v) => PV::Some(Box::new(pv_voh(&v))),
+    };
+    PV::List(vec![o(comp), o(scomp), pv_voh(&ten), pv_voh(&sten), pv_voh(&dag), pv_voh(&sdag), pv_lax(&f.dagger()), pv_lax(&f.dagger().dagger())])
+}
+pub fn lax_constructors(inp: &PV) -> PV {
+    // inputs: a labels, b labels, x label, s (raw ff), t (raw ff), w labels
+    let (a, b) = (inp.at(0).ts(), inp.at(1).ts());
+    let ls = |ts: &[T]| ts.iter().map(|t| K::mk_l(*t)).collect::<Vec<L>>();
+    let id = LOH::identity(ls(&a));
+    let id2 = <LOH as Arrow>::identity(ls(&a));
+    let tw = <LOH as SymmetricMonoidal>::twist(ls(&a), ls(&b));
+    let single = LOH::singleton(K::mk_l(inp.at(2).t()), ls(&a), ls(&b));
+    let mk = |r: &RawFF| FiniteFunction::<VK> { table: open_hypergraphs::array::vec::VecArray(r.table.iter().map(|t| RawLax::id(*t)).collect()), target: RawLax::id(r.target) };
+    let (s, t, w) = (mk(inp.at(3).ff()), mk(inp.at(4).ff()), inp.at(5).ts());
+    let sp = LOH::spider(s.clone(), t.clone(), ls(&w));
+    let sp2 = <LOH as Spider<VK>>::spider(s.clone(), t.clone(), ls(&w));
+    let hs = <LOH as Spider<VK>>::half_spider(s.clone(), ls(&w));
+    let src = |f: &LOH| PV::of_ts(&<LOH as Arrow>::source(f).iter().map(|l| K::rd_l(l)).collect::<Vec<T>>());
+    let tgt = |f: &LOH| PV::of_ts(&<LOH as Arrow>::target(f).iter().map(|l| K::rd_l(l)).collect::<Vec<T>>());
+    PV::List(vec![pv_lax(&id), pv_lax(&id2), pv_lax(&tw), src(&tw), tgt(&tw), pv_lax(&single), src(&single), tgt(&single), pv_opt_lax(sp), pv_opt_lax(sp2), pv_opt_lax(hs), pv_lax(&LOH::empty())])
+}
